@@ -264,6 +264,35 @@ def _contain_shard(arg):
     return viol, n
 
 
+TARGET_NAMES = ['n', 'n.a', 'n.b', 'n.a.b', 'n-1.0', 'n-1.1', 'd/n.a', 'd/n.b']
+TARGET_KINDS = ['executable', 'static_library', 'shared_library', 'library']
+
+
+def _tname_shard(arg):
+    """two targets with DISTINCT names built from the SAME source: a valid project, whose two
+    compile steps must be given distinct object paths"""
+    backend, kind, pairs = arg
+    root = os.path.join(core.worker_dir(), 'c05t')
+    viol = []
+    n = 0
+    for a, b in pairs:
+        script = "%s(%r, ['src/m.c'])\n%s(%r, ['src/m.c'], compile_options=['-DOTHER'])\n" % (kind, a, kind, b)
+        r, src, bld, env = run_project(root, ['src/m.c'], script, backend=backend)
+        n += 1
+        label = '%s:%s:%s|%s' % (backend, kind, a, b)
+        if r.rc != 0:
+            viol.append(('distinct-targets-collide', label,
+                         'configure rejects two targets with different names built from the same source: %s'
+                         % (r.err.strip().splitlines()[-1][:200] if r.err.strip() else '')))
+            continue
+        outs = [o for f, o in outputs_of(bld, src) if f.endswith('/src/m.c')]
+        per = 2 if kind != 'library' else 2      # (library(): one object set per target in default mode)
+        if len(set(outs)) < per:
+            viol.append(('distinct-targets-collide', label, 'objects of the two targets: %r' % outs))
+    shutil.rmtree(root, ignore_errors=True)
+    return viol, n
+
+
 def _collide_shard(arg):
     backend, idx = arg
     name, files, script = COLLIDING[idx]
@@ -302,6 +331,8 @@ def run(ctx):
             shards.append(('collide', (b, i)))
         for i in range(len(CONTAIN_SCRIPTS)):
             shards.append(('contain', (b, i)))
+        for kind in TARGET_KINDS:
+            shards.append(('tname', (b, kind, list(itertools.combinations(TARGET_NAMES, 2)))))
     order = core.seeded_order(range(len(shards)), ctx.seed)
     res = core.pmap(_dispatch, [shards[i] for i in order])
     res = [r for _, r in sorted(zip(order, res), key=lambda t: t[0])]
@@ -390,7 +421,7 @@ def run(ctx):
 def _dispatch(sh):
     k, a = sh
     return {'map': _map_shard, 'noint': _noint_shard, 'collide': _collide_shard,
-            'contain': _contain_shard}[k](a)
+            'contain': _contain_shard, 'tname': _tname_shard}[k](a)
 
 
 def replay(rec):
